@@ -538,6 +538,55 @@ def ob_push_pop(nstack: int, s0: int, s1: int, s2: int, cwd_i: int, tgt: int, mi
     return None
 
 
+def direct_reference_vs_bash(tier):
+    """Oracle validation (not a solver query): the rotation / removal / selection rules used as reference
+    (bash directory-stack builtins, which xonsh's docstrings cite) agree with a real bash on a real tree."""
+    import os
+    import shutil
+    import subprocess
+    import tempfile
+    import time
+
+    t0 = time.time()
+    root = os.path.realpath(tempfile.mkdtemp(prefix="vf_c16_"))
+    n = 0
+    samples = []
+    try:
+        names = ["d0", "d1", "d2", "d3"]
+        for d in names:
+            os.makedirs(os.path.join(root, d))
+        for size in (2, 3, 4):
+            # build `dirs` = [d{size-1}, ..., d0] by pushing
+            build = "cd %s/d0; " % root + " ".join("pushd %s/%s >/dev/null;" % (root, d) for d in names[1:size])
+            L = [os.path.join(root, d) for d in reversed(names[:size])]
+            for sign in "+-":
+                for k in range(size + 1):
+                    for cmd in ("pushd", "popd", "dirs"):
+                        script = build + " %s %s%d >/dev/null 2>&1; echo rc=$?; dirs -p -l" % (cmd, sign, k)
+                        out = subprocess.run(["bash", "-c", script], capture_output=True, text=True).stdout.split("\n")
+                        rc = int(out[0][3:])
+                        got = [x for x in out[1:] if x]
+                        idx = _rot_ref(L, sign == "+", k, False)
+                        if cmd == "dirs":
+                            exp_rc, exp = (0 if idx is not None else 1), L
+                        elif idx is None:
+                            exp_rc, exp = 1, L
+                        elif cmd == "pushd":
+                            exp_rc, exp = 0, L[idx:] + L[:idx]
+                        else:
+                            exp_rc, exp = 0, [d for j, d in enumerate(L) if j != idx]
+                        n += 1
+                        if (rc != 0) != (exp_rc != 0) or got != exp:
+                            return dict(verdict="error", queries=0, solver_s=0.0,
+                                        detail=f"reference disagrees with bash: dirs={L} `{cmd} {sign}{k}`: bash rc={rc} dirs={got}, reference rc={exp_rc} dirs={exp}")
+                        if len(samples) < 3:
+                            samples.append(dict(dirs=[os.path.basename(x) for x in L], cmd=f"{cmd} {sign}{k}", bash=[os.path.basename(x) for x in got]))
+        return dict(verdict="confirmed", queries=0, solver_s=0.0, paths=n, samples=samples,
+                    detail=f"reference agrees with bash on {n} pushd/popd/dirs +N/-N instances", wall_s=round(time.time() - t0, 2))
+    finally:
+        shutil.rmtree(root, ignore_errors=True)
+
+
 def _region_rotation(args, v):
     return v.startswith("pushd-not-rotating")
 
@@ -566,6 +615,9 @@ _PUSHD_Q = ([dict(nstack=k, form=0, cwd_i=0, gone=False) for k in (0, 1, 2)]
 _POPD_Q = ([dict(nstack=k, form=f, cwd_i=0, gone=False) for k in range(4) for f in range(4)]
            + [dict(nstack=k, form=0, cwd_i=0, gone=True) for k in (1, 2)])
 OBLIGATIONS = [
+    Obligation("reference_vs_bash", None, direct=direct_reference_vs_bash,
+               bounds="oracle validation: +N/-N selection, rotation (pushd) and removal (popd) of the reference vs real bash on stacks of 2..4 entries",
+               symbolic="none (concrete validation of the reference model)"),
     Obligation("cd", ob_cd, bounds=_B + _QB + "cd with no arg / 10 target spellings / - / -N (0..4) / malformed / two args / -P; $AUTO_PUSHD; $DIRSTACK_SIZE 0..5",
                pre=_PRE + ["0 <= form < 7", "-1 <= old_i < 5", "0 <= tgt < 10", "0 <= n <= 4", "0 <= size <= 5"],
                parts={"quick": _CD_Q, "thorough": [dict(nstack=k, form=f) for k in range(4) for f in range(7)]},
